@@ -563,9 +563,25 @@ func (c *Ctx) BvBin(op Op, a, b *Term) *Term {
 		if a == b {
 			return a
 		}
-	case OBvUDiv:
-		if b.IsConst() && b.Val == 1 {
+	case OBvUDiv, OBvURem:
+		if op == OBvUDiv && b.IsConst() && b.Val == 1 {
 			return a
+		}
+		// (x * k) / k = x and (x * k) % k = 0 when the product cannot overflow
+		if b.IsConst() && b.Val > 1 && a.Op == OBvMul && w <= 64 {
+			for i := 0; i < 2; i++ {
+				k, x := a.Args[i], a.Args[1-i]
+				if k.IsConst() && k.Val == b.Val {
+					_, hi := c.URange(x)
+					h, l := bits.Mul64(hi, k.Val)
+					if h == 0 && l <= mask(w) {
+						if op == OBvUDiv {
+							return x
+						}
+						return c.Const(a.S, 0)
+					}
+				}
+			}
 		}
 	}
 	// commutative ordering
@@ -665,6 +681,35 @@ func (c *Ctx) URange(t *Term) (uint64, uint64) {
 	case OBvURem:
 		if t.Args[1].IsConst() && t.Args[1].Val > 0 {
 			return 0, t.Args[1].Val - 1
+		}
+	case OBvOr, OBvXor:
+		_, h1 := c.URange(t.Args[0])
+		_, h2 := c.URange(t.Args[1])
+		if h2 > h1 {
+			h1 = h2
+		}
+		n := bits.Len64(h1)
+		if n >= 64 {
+			return 0, mask(w)
+		}
+		return 0, (uint64(1) << uint(n)) - 1
+	case OBvShl:
+		if t.Args[1].IsConst() && t.Args[1].Val < 64 {
+			_, h := c.URange(t.Args[0])
+			k := uint(t.Args[1].Val)
+			if bits.Len64(h)+int(k) <= w {
+				return 0, h << k
+			}
+		}
+	case OConcat:
+		if t.Args[0].IsConst() && t.Args[0].Val == 0 {
+			rest := 0
+			for _, a := range t.Args[1:] {
+				rest += a.S.W
+			}
+			if rest < 64 {
+				return 0, (uint64(1) << uint(rest)) - 1
+			}
 		}
 	case OBvLShr:
 		if t.Args[1].IsConst() && t.Args[1].Val < 64 {
